@@ -236,15 +236,22 @@ class NativeSpecs:
             if not k.startswith('_'):
                 ns[k] = getattr(specrt, k)
         sdir = os.path.join(VERIF, 'spec')
+        mods = []
         for fn in sorted(os.listdir(sdir)):
             if fn.endswith('.py') and not fn.startswith('_'):
                 spec = importlib.util.spec_from_file_location(
                     'vspec_' + fn[:-3], os.path.join(sdir, fn))
                 mod = importlib.util.module_from_spec(spec)
                 spec.loader.exec_module(mod)
+                mods.append(mod)
                 for k, v in vars(mod).items():
                     if not k.startswith('_'):
                         ns[k] = v
+        # spec files refer to each other's functions: one shared namespace
+        for mod in mods:
+            for k, v in ns.items():
+                if k not in vars(mod):
+                    setattr(mod, k, v)
         self.ns = ns
 
 
@@ -261,10 +268,32 @@ class _Old(ast.NodeTransformer):
                 value=ast.Name(id='__old', ctx=ast.Load()),
                 slice=ast.Constant(len(self.exprs) - 1), ctx=ast.Load()), n)
         self.generic_visit(n)
-        return n
+        return _lazy(n)
+
+
+def _lazy(n):
+    """implies(a, b) / ite(c, a, b) evaluate lazily, as the prover reads them
+    (a consequent that indexes out of range under a false antecedent is not
+    an error)"""
+    if isinstance(n, ast.Call) and isinstance(n.func, ast.Name):
+        if n.func.id == 'implies' and len(n.args) == 2:
+            return ast.copy_location(ast.BoolOp(op=ast.Or(), values=[
+                ast.UnaryOp(op=ast.Not(), operand=n.args[0]), n.args[1]]), n)
+        if n.func.id == 'ite' and len(n.args) == 3:
+            return ast.copy_location(ast.IfExp(
+                test=n.args[0], body=n.args[1], orelse=n.args[2]), n)
+    return n
+
+
+class _Lazy(ast.NodeTransformer):
+    def visit_Call(self, n):
+        self.generic_visit(n)
+        return _lazy(n)
 
 
 def _ev(expr, env, ns):
+    import copy
+    expr = _Lazy().visit(copy.deepcopy(expr))
     code = compile(ast.fix_missing_locations(ast.Expression(body=expr)),
                    '<clause>', 'eval')
     g = dict(ns)
@@ -410,7 +439,12 @@ class Monitor:
             for (name, when) in c.raises:
                 if name in mro:
                     if when is not None:
-                        ok = eval_clause(when, pre_env, pre_env, ns)
+                        try:
+                            ok = eval_clause(when, pre_env, pre_env, ns)
+                        except Exception as ex:
+                            out.detail.setdefault('not_evaluable', []).append(
+                                'raises:%s: %r' % (name, ex))
+                            ok = True
                         if not ok:
                             out.failures.append((
                                 'raises:' + name,
@@ -427,14 +461,16 @@ class Monitor:
                 try:
                     ok = eval_clause(e, pre_env, post_env, ns)
                 except Exception as ex:
-                    out.failures.append(('ensures#%d' % k,
-                                         'clause raised %r: %s' % (
-                                             ex, ast.unparse(e))))
+                    # a clause the native evaluator cannot evaluate decides
+                    # nothing (never a failure of the code)
+                    out.detail.setdefault('not_evaluable', []).append(
+                        'ensures#%d: %r' % (k, ex))
                     continue
                 if not ok:
                     out.failures.append(('ensures#%d' % k, ast.unparse(e)))
         # frame: node-valued things outside modifies keep their value
-        mods = {ast.unparse(m) for m in c.modifies}
+        mods = {ast.unparse(m) for m in c.modifies} | {
+            ast.unparse(m) for m in c.rebinds}
         for name in self.node_places(pre_env):
             if name in mods:
                 continue
@@ -534,6 +570,11 @@ def replay_obligation(rec, monitor=None):
         v['found_by'] = 'solver model'
         return v
     s = replay_search(rec, monitor)
+    if s is None:
+        try:
+            s = replay_search_node(rec, monitor)
+        except Bad:
+            s = None
     if s is not None:
         s['model_replay'] = {k: v.get(k) for k in ('inputs', 'error',
                                                   'failures')}
@@ -584,6 +625,105 @@ def replay_search(rec, monitor, limit=200000):
                     'found_by': 'contract-guided bounded search over small '
                     'inputs (%d tried) after the solver model did not '
                     'replay' % n}
+    return None
+
+
+def small_nodes():
+    """a family of small mapping nodes around one attribute 'items' whose value
+    is a scalar, a sequence or a mapping of up to two small items (scalars or
+    mappings over the keys id / val / x) - the shapes the structural
+    transforms and the accessors distinguish"""
+    STRT, INTT, MAPT, SEQT = ('tag:yaml.org,2002:str',
+                              'tag:yaml.org,2002:int',
+                              'tag:yaml.org,2002:map',
+                              'tag:yaml.org,2002:seq')
+    cnt = [0]
+
+    def mark():
+        cnt[0] += 1
+        return cnt[0]
+
+    def sc(v, tag=STRT):
+        return lambda: N(SCALAR, tag, v, [], [], mark(), mark())
+
+    def mp(pairs):
+        return lambda: N(MAP, MAPT, '', [], [P(k(), v()) for k, v in pairs],
+                         mark(), mark())
+
+    def sq(items):
+        return lambda: N(SEQ, SEQT, '', [x() for x in items], [], mark(),
+                         mark())
+    leafs = [sc('a'), sc('b'), sc('7', INTT)]
+    inner = [mp([]), mp([(sc('id'), sc('a'))]),
+             mp([(sc('id'), sc('b')), (sc('val'), sc('v'))]),
+             mp([(sc('val'), sc('v')), (sc('id'), sc('a'))]),
+             mp([(sc('id'), sc('a')), (sc('val'), sc('v')),
+                 (sc('x'), sc('1', INTT))]),
+             mp([(sc('id'), sc('7', INTT))]),
+             mp([(sc('id'), sc('a')), (sc('id'), sc('b'))]),
+             mp([(sc('val'), mp([(sc('x'), sc('y'))]))])]
+    items = leafs[:2] + inner
+    values = [sc('s')]
+    import itertools
+    for n in (0, 1, 2):
+        for combo in itertools.product(items, repeat=n):
+            values.append(sq(list(combo)))
+            keys = [sc('a'), sc('b')][:n]
+            values.append(mp(list(zip(keys, combo))))
+    out = []
+    for v in values:
+        out.append(mp([(sc('items'), v)]))
+        out.append(mp([(sc('other'), sc('o')), (sc('items'), v)]))
+    out.append(mp([]))
+    out.append(mp([(sc('items'), sc('s')), (sc('items'), sc('t'))]))
+    return out
+
+
+def replay_search_node(rec, monitor, limit=60000):
+    """contract-guided bounded search for methods of Node / UnknownNode whose
+    other inputs are strings, scalar-union values or booleans"""
+    import inspect
+    import itertools
+    qual = rec['function']
+    inputs = rec['inputs']
+    if set(k for k in inputs if k.startswith('self.')) != {'self.yaml_node'}:
+        return None
+    names = [n for n in inputs if not n.startswith('self.')]
+    keys = {n: inputs[n]['key'] for n in names}
+    if any(k not in ('str', 'PV', 'bool') for k in keys.values()):
+        return None
+    cls, fn = real_function(qual)
+    if cls is None or cls.__name__ not in ('Node', 'UnknownNode'):
+        return None
+    order = [p for p in inspect.signature(fn).parameters if p != 'self'
+             and p in keys]
+    pool = {'str': ['items', 'id', 'val', 'x'], 'PV': [None, 'val'],
+            'bool': [True, False]}
+    n = 0
+    for mk in small_nodes():
+        for combo in itertools.product(*[pool[keys[p]] for p in order]):
+            n += 1
+            if n > limit:
+                return None
+            nv = mk()
+            try:
+                self_obj = build_self(qual, {'yaml_node': nv})
+            except Bad:
+                return None
+            args = dict(zip(order, combo))
+            out = monitor.run(qual, self_obj, args, keys)
+            if out.pre_ok and out.failures:
+                return {'function': qual,
+                        'inputs': dict({'self.yaml_node': show(nv)},
+                                       **{p: repr(a)
+                                          for p, a in args.items()}),
+                        'precondition_holds': True,
+                        'exception': repr(out.exception) if out.exception
+                        else None,
+                        'failures': out.failures, 'reproduced': True,
+                        'found_by': 'contract-guided bounded search over '
+                        'small nodes (%d calls of the real method) after the '
+                        'solver model did not replay' % n}
     return None
 
 
